@@ -461,6 +461,8 @@ class Program:
         if bind is None and cid in self._closure_frames:
             return self._closure_frames[cid]
         info, snapshot, conds = self.closures[cid]
+        if conds:
+            snapshot = {k: specialise(v, conds) for k, v in snapshot.items()}
         fr = Frame(qualname=info.qualname, module=info.module, env={})
         if bind is None:
             self._closure_frames[cid] = fr
@@ -526,6 +528,21 @@ class Program:
         )
         self._inline_cache[key] = fr.ret
         return fr.ret
+
+
+def specialise(t, conds):
+    """Resolve phi nodes whose condition is decided by the path conditions ``conds``."""
+    if not isinstance(t, tuple):
+        return t
+    if is_term(t) and t[0] in ("phi", "ifexp"):
+        c = t[1]
+        if c in conds:
+            return specialise(t[2], conds)
+        if ("not", c) in conds or ("unop", "not", c) in conds:
+            return specialise(t[3], conds)
+        if c[0] == "not" and c[1] in conds:
+            return specialise(t[3], conds)
+    return tuple(specialise(x, conds) if isinstance(x, tuple) else x for x in t)
 
 
 def _all_stmts(body):
